@@ -192,6 +192,9 @@ impl TimeTrigger {
         let next_time = TimeTrigger::get_next_time(current, config.interval, config.modulate);
         let next_roll_time = if config.max_random_delay > 0 {
             let random_delay = rand::thread_rng().gen_range(0..config.max_random_delay);
+            #[cfg(feature = "verif_hooks")]
+            let random_delay = crate::verif::rand_below("time.delay", config.max_random_delay)
+                .unwrap_or(random_delay);
             next_time + Duration::seconds(random_delay as i64)
         } else {
             next_time
@@ -201,6 +204,22 @@ impl TimeTrigger {
             config,
             next_roll_time: RwLock::new(next_roll_time),
         }
+    }
+
+    /// The instant at which the trigger will fire next.
+    #[cfg(feature = "verif_hooks")]
+    pub fn verif_next_roll_time(&self) -> DateTime<Local> {
+        *self.next_roll_time.read().unwrap()
+    }
+
+    /// The scheduling function, exposed for simulation.
+    #[cfg(feature = "verif_hooks")]
+    pub fn verif_get_next_time(
+        current: DateTime<Local>,
+        interval: TimeTriggerInterval,
+        modulate: bool,
+    ) -> DateTime<Local> {
+        TimeTrigger::get_next_time(current, interval, modulate)
     }
 
     fn get_next_time(
